@@ -13,14 +13,14 @@ open Phil
 /-! ### 1. the alternatives are preserved -/
 
 /-- General form, no side condition: a successful fetch of a source other than plain `Auto` is the
-    master's word list, each word `w` re-drawn by `render flags w`: value `name` or `*name` where
+    master's word list, each word `w` re-drawn by `renderStar flags w`: value `name` or `*name` where
     `name = (stripStar w.value).1`, quote and line of `w`. -/
 theorem choice_alts_shape (mwords : List Word) (opt : AttrVal) (src : List Word) (ign : Bool)
     (out : List Word) (h : choiceFetch mwords opt src ign = .ok out) (hs : isPlainAuto src = false) :
-    ∃ flags : Flags, out = mwords.map (render flags) ∧
-      ∀ w, (render flags w).quote = w.quote ∧ (render flags w).line = w.line ∧
-        ((render flags w).value = (stripStar w.value).1 ∨
-         (render flags w).value = '*' :: (stripStar w.value).1) := by
+    ∃ flags : Flags, out = mwords.map (renderStar flags) ∧
+      ∀ w, (renderStar flags w).quote = w.quote ∧ (renderStar flags w).line = w.line ∧
+        ((renderStar flags w).value = (stripStar w.value).1 ∨
+         (renderStar flags w).value = '*' :: (stripStar w.value).1) := by
   rcases choiceFetch_ok_shape _ _ _ _ _ h with ⟨h1, _⟩ | ⟨_, flags, _, h2⟩
   · rw [h1] at hs; cases hs
   · exact ⟨flags, h2, fun w => render_name flags w⟩
